@@ -68,6 +68,13 @@ def gen_inputs(ctx):
         if h["cmds"]:
             h["kind"] = "view"
             yield h
+    # nested: mutations through child views and assignment of already hashed composite values
+    for i in range(m):
+        t = NESTED[i % len(NESTED)]
+        h = gen_history(rng, t, rng.randrange(3, 10), p_child=0.4)
+        if h["cmds"]:
+            h["kind"] = "nested"
+            yield h
 
 
 def build_tree_case(inp):
@@ -178,7 +185,101 @@ def build_view_case(inp):
     return cs
 
 
+NESTED = [t for t in MUTABLE_TOP if any(x in json.dumps(t[1:]) for x in ('"cont"', '"list"', '"vec"', '"union"', '"bitlist"'))]
+NESTED += [["cont", [["cont", [["uint", 8]] * 8], ["uint", 1]]], ["list", ["cont", [["uint", 8]] * 9], 4],
+           ["vec", ["list", ["uint", 8], 64], 2], ["cont", [["list", ["uint", 8], 1024], ["vec", ["cont", [["uint", 1]] * 5], 3]]]]
+
+
+def child_gindex(pt, px, link):
+    """static gindex of the position a child view was obtained from"""
+    if isinstance(link, tuple):
+        return 2
+    if pt[0] == "cont":
+        return int(type(px).key_to_static_gindex("f%d" % link))
+    return int(type(px).key_to_static_gindex(link))
+
+
+def build_nested_case(inp):
+    """model-free: after a mutation through a (possibly deep) child view, every enclosing view holds the child's
+    backing OBJECT at the child's position; an assigned, already hashed composite value is inserted as the same
+    object; the next hash_tree_root() of the top view hashes no more than the changed paths"""
+    t, v, cmds = inp["t"], inp["v"], inp["cmds"]
+    sh = Shadow(t, v)
+    why = None
+    for k, cmd in enumerate(cmds):
+        if cmd[1] >= len(sh.views):
+            break
+        sh.views[0].hash_tree_root()
+        mutating = cmd[0] in ("set", "append", "pop", "bitset", "change")
+        stale = sh.stale(cmd[1])
+        et = elem_for(sh, cmd) if mutating else None
+        argview = None
+        if mutating and cmd[0] == "set" and et is not None and not is_basic(et) and et[0] not in ("bytevec", "bytelist") \
+                and cmd[-1][0] == "val":
+            try:
+                argview = to_py(et, cmd[-1][1])
+                argview.hash_tree_root()
+            except Exception:
+                argview = None
+        try:
+            if argview is not None:
+                x, pt = sh.views[cmd[1]], sh.types[cmd[1]]
+                if pt[0] == "cont":
+                    setattr(x, "f%d" % cmd[2], argview)
+                else:
+                    x[cmd[2]] = argview
+            else:
+                sh.run(cmd)
+            ok = True
+        except Exception:
+            ok = False
+        if not (mutating and ok) or stale or why:
+            continue
+        # (1) the assigned hashed value is inserted as the very same node object
+        if argview is not None:
+            x, pt = sh.views[cmd[1]], sh.types[cmd[1]]
+            g = child_gindex(pt, x, cmd[2])
+            if x.get_backing().getter(g) is not argview.get_backing():
+                why = "command %d: the assigned (already hashed) value's backing was rebuilt instead of shared" % (k + 1)
+        # (2) every enclosing view holds the child's backing object at the child's position
+        vi = cmd[1]
+        depth_sum = view_depth(sh.types[vi]) + 2
+        while sh.parent[vi] is not None and why is None:
+            pi, link = sh.parent[vi]
+            px, pt = sh.views[pi], sh.types[pi]
+            g = child_gindex(pt, px, link)
+            if px.get_backing().getter(g) is not sh.views[vi].get_backing():
+                why = "command %d: enclosing view %d does not share the mutated child's backing object" % (k + 1, pi)
+            depth_sum += view_depth(pt) + 2
+            vi = pi
+        # (3) hashes of the next root of the top view: bounded by the changed paths (+ a new, unhashed value)
+        arg_nodes = 0
+        a = cmd[-1]
+        if argview is None and et is not None and isinstance(a, list) and a and a[0] == "val" and not is_basic(et):
+            try:
+                tmp = {}
+                reachable(to_py(et, a[1]).get_backing(), tmp)
+                arg_nodes = len(tmp)
+            except Exception:
+                pass
+        with Counter() as c:
+            sh.views[0].hash_tree_root()
+            if c.n > depth_sum + arg_nodes + 1 and why is None:
+                why = "command %d: next hash_tree_root() performed %d hashes, more than the changed paths (%d)" % (
+                    k + 1, c.n, depth_sum + arg_nodes + 1)
+        with Counter() as c:
+            sh.views[0].hash_tree_root()
+            if c.n != 0 and why is None:
+                why = "command %d: a second hash_tree_root() performed %d hashes" % (k + 1, c.n)
+    cs = Case(inp, "(R \"00\", false, (OpSummarize 1%N), (0%N, 0%N, 0%N))", [True, b"\x00", [], True, True, True, 0], NAMES,
+              nontrivial=True, kind="nested")
+    cs.why = why
+    return cs
+
+
 def build(inp):
+    if inp["kind"] == "nested":
+        return build_nested_case(inp)
     if inp["kind"] == "tree":
         c = build_tree_case(inp)
         c.why = None
